@@ -24,7 +24,8 @@ RULE = ("one run = one manager lifetime (real TCPServer.run + socketserver loop 
         "scheduler) receiving a history of 1..N hostile request lines over simulated TCP connections "
         "(arbitrary bytes, invalid UTF-8, hostile JSON shapes, requests of every command with hostile "
         "field values, hostile block / brother / coinbase shapes, a quarter of the later lines repeating "
-        "the previous one; sent in fragments / half-closed / reset before the reply / two at once), each "
+        "the previous one; sent in fragments / half-closed / reset before the reply / reset before a whole "
+        "line arrived / two at once), each "
         "followed by a well-formed probe on a new connection; non-trivial = at least one hostile line "
         "was parsed as JSON and dispatched; distinct = tuple (mode, sorted kinds of lines in the history, "
         "client behaviours used)")
@@ -259,6 +260,15 @@ def run_one(ch, cfg):
         elif behaviour == "half-close":
             c.send(line)             # no newline, then FIN
             c.half_close()
+        elif behaviour == "reset-mid-line":
+            # the connection is reset before a whole line arrived (nothing, or a partial line)
+            cut = ch.draw(len(line) + 1, "midline.cut") if ch.draw(3, "midline.nothing") else 0
+            if cut:
+                c.send(line[:cut])
+                if ch.draw(2, "midline.pause"):
+                    k.sleep(ch.pick([0.01, 0.6], "midline.delay"))
+            c.reset()
+            return c, "reset"
         elif behaviour == "trailing-bytes":
             # more bytes after the request line (a second line the server must not answer)
             c.send(payload + ch.pick([b'{"command":"version"}\n', b"\x00\xff garbage", b"\n\n"],
@@ -280,8 +290,8 @@ def run_one(ch, cfg):
             prev = (line, kind)
             kinds.append(kind)
             behaviour = ch.weighted([(6, "plain"), (2, "fragments"), (1, "half-close"),
-                                     (1, "reset"), (1, "pair"), (1, "trailing-bytes")],
-                                    "client.behaviour")
+                                     (1, "reset"), (1, "pair"), (1, "trailing-bytes"),
+                                     (1, "reset-mid-line")], "client.behaviour")
             behaviours.add(behaviour)
             entry = {"line": line[:200].decode("latin-1") + ("...(%d bytes)" % len(line)
                                                             if len(line) > 200 else ""),
